@@ -104,6 +104,20 @@ def sibling(rng, name, p, cap):
     return q
 
 
+def one_parameter_sibling(rng, name, p, which):
+    """p with exactly ONE non-structural parameter redrawn (a price / cost / probability sweep in one process);
+    ``which`` cycles through the parameters so that every one of them is the swept one in some case."""
+    keys = [k for k in draw(rng, name, 10 ** 9) if k not in STRUCTURAL[name]]
+    k = keys[which % len(keys)]
+    q = dict(p)
+    for _ in range(50):
+        v = sibling(rng, name, p, 10 ** 9)[k]
+        if v != p.get(k):
+            q[k] = v
+            break
+    return q
+
+
 def cases(seed, tier, salt):
     rng = np.random.default_rng([seed, 1316])     # same parameterisations for C13-C16 of one seed
     n = 24 if tier == "quick" else 110
@@ -117,6 +131,7 @@ def cases(seed, tier, salt):
             c = dict(name=nm, params=p, devices=1)
             if i % 3 == 0:
                 full = dict(p)
-                c["siblings"] = [sibling(rng, nm, full, cap) for _ in range(int(rng.integers(1, 3)))]
+                c["siblings"] = ([sibling(rng, nm, full, cap)]
+                                 + [one_parameter_sibling(rng, nm, full, i // 3 + seed + j) for j in range(int(rng.integers(1, 3)))])
             out.append(c)
     return out
